@@ -238,6 +238,17 @@ func init() {
 				sp.ReqFail = map[int][2]int{0: {2, []int{0x24, 0x84, 0x82}[rng.Intn(3)]}}
 				out = append(out, drv.Scenario{Kind: "startfail", Seed: seed, Params: mustJSON(sp), TimeoutS: 90, Solo: true})
 			}
+			// ... also when the answer to the re-request is "roll back" once more (the history changed again in between)
+			xr := rand.New(rand.NewSource(seed*29 + 1))
+			for i := 0; i < (nf+1)/2; i++ {
+				sp, _ := c08Spec(xr, 0)
+				sp.RollbackAt = map[int]int{}
+				sp.RollbackAlso = map[int]int{}
+				for vb := range sp.Rollbacks {
+					sp.RollbackAlso[vb] = 2
+				}
+				out = append(out, drv.Scenario{Kind: "startfail", Seed: seed, Params: mustJSON(sp), TimeoutS: 90, Solo: true})
+			}
 			return out
 		},
 		Run: func(sc drv.Scenario) drv.Result {
@@ -251,8 +262,12 @@ func init() {
 			tr := RunSession(&sp)
 			if sc.Kind == "startfail" {
 				// still here: the client kept running although a vBucket could not be reopened
-				return drv.Result{Verdict: drv.Violated, Clause: "startfail", FindingKey: "C08/startfail-survived", Nontrivial: true, TraceHash: drv.Hash("startfail", fmt.Sprint(sp.ReqFail)),
-					Detail: fmt.Sprintf("the re-request after ROLLBACK was answered with status 0x%x, yet start-up went on (start error: %q, deliveries %d)", sp.ReqFail[0][1], tr.StartErr, len(tr.Events))}
+				answer := fmt.Sprintf("with status 0x%x", sp.ReqFail[0][1])
+				if len(sp.RollbackAlso) > 0 {
+					answer = "with ROLLBACK again"
+				}
+				return drv.Result{Verdict: drv.Violated, Clause: "startfail", FindingKey: "C08/startfail-survived", Nontrivial: true, TraceHash: drv.Hash("startfail", fmt.Sprint(sp.ReqFail, sp.RollbackAlso)),
+					Detail: fmt.Sprintf("the re-request after ROLLBACK was answered %s, yet start-up went on (start error: %q, deliveries %d)", answer, tr.StartErr, len(tr.Events))}
 			}
 			fs, n := OracleRollback(tr)
 			for _, f := range OracleDelivery(tr) {
